@@ -53,6 +53,7 @@ func (p *Pkg) switchTable(name, fn, tagName string) {
 }
 
 func extractMore(pkgs map[string]*Pkg) {
+	extractServer(pkgs)
 	extractV4Acc(pkgs[mod+"/dhcpv4"])
 	extractRaw(pkgs[mod+"/dhcpv4/nclient4"])
 	if p := pkgs[mod+"/dhcpv6"]; p != nil {
